@@ -1016,9 +1016,23 @@ impl Property for C03 {
                 let src = dec_text(&mut it);
                 out.nontrivial = src.chars().count() >= 2;
                 let reply = drv.ask(case);
-                let (m, s) = reply.split_once('|').unwrap_or_else(|| panic!("driver reply malformed: {reply}"));
-                let (m, s) = (parse_i64s(m.trim()), parse_i64s(s.trim()));
+                let parts: Vec<&str> = reply.split('|').map(|p| p.trim()).collect();
+                if parts.len() != 3 {
+                    panic!("driver reply malformed: {reply}");
+                }
+                let (m, s) = (parse_i64s(parts[0]), parse_i64s(parts[1]));
                 tags_of(&mut out, &src, cfg.eol, &s);
+                // the byte-level twin of the model (offsets in bytes, slices with their panics)
+                if parts[2] != "=" {
+                    out.fail(
+                        Kind::ModelVsSpec,
+                        "lex",
+                        if parts[2] == "10" { "byte-level model slices off a character boundary".to_string() } else { "byte-level model differs from the character-level model".to_string() },
+                        format!("src {src:?}\nbyte-level: {}\nmodel:      {}", parts[2], join(&m)),
+                    );
+                } else if !src.is_ascii() {
+                    out.tag("byte-model:non-ascii-agrees");
+                }
                 if m != s {
                     out.fail(
                         Kind::ModelVsSpec,
@@ -1083,7 +1097,7 @@ impl Property for C03 {
                             None => out.tag("vmc:stopped-in-line-1"),
                             Some(i_suf) => {
                                 let reply = drv.ask(&lex_case(false, &cur, &c.text));
-                                let (_, s) = reply.split_once('|').unwrap_or_else(|| panic!("driver reply malformed: {reply}"));
+                                let s = reply.split('|').nth(1).unwrap_or_else(|| panic!("driver reply malformed: {reply}"));
                                 let s = upto_invalid(&parse_i64s(s.trim()));
                                 tags_of(&mut out, &c.text, cur.eol, &s);
                                 out.tag("vmc:compared-with-spec");
